@@ -25,6 +25,7 @@ import (
 	"strconv"
 	"strings"
 	"sync"
+	"sync/atomic"
 	"time"
 
 	http2 "github.com/dgrr/http2"
@@ -46,8 +47,25 @@ type cliReq struct {
 	bs     *cli_scriptReader
 }
 
+// cliNet is the client's end of the connection; it notes the writes the transport refused
+// (`failwrite`), for the monitors: a connection whose transport has failed must not keep callers waiting.
+type cliNet struct {
+	*memConn
+	failed atomic.Int32
+}
+
+func (n *cliNet) Write(p []byte) (int, error) {
+	k, err := n.memConn.Write(p)
+	if err != nil && err != errPipeClosed {
+		n.failed.Add(1)
+	}
+	return k, err
+}
+
 type cliConn struct {
 	mc       *memConn
+	nc       *cliNet
+	failSeen int32
 	c        *http2.Conn
 	reqs     map[string]*cliReq
 	order    []string
@@ -165,8 +183,19 @@ func cliErrName(err error) string {
 // that is still open (a closed one wakes it up).
 func (cc *cliConn) readIdle() bool { return cc.mc.in.idle() && !cc.mc.in.isClosed() }
 
+// cliStuckSeen counts the connections of this run already found stuck. A step normally settles in
+// well under a millisecond; the first verdicts wait four seconds to be sure, later ones (the run is
+// failing by then) less, so that a deadlock hit by many scripts does not take minutes to report.
+var cliStuckSeen int
+
 func (cc *cliConn) quiesce() string {
-	deadline := time.Now().Add(4 * time.Second)
+	wait := 4 * time.Second
+	if cliStuckSeen >= 10 {
+		wait = 300 * time.Millisecond
+	} else if cliStuckSeen >= 3 {
+		wait = time.Second
+	}
+	deadline := time.Now().Add(wait)
 	spins := 0
 	for {
 		exits := http2.VerifClientLoopExits.Load()
@@ -189,9 +218,28 @@ func (cc *cliConn) quiesce() string {
 		} else {
 			time.Sleep(50 * time.Microsecond)
 			if spins%64 == 0 && time.Now().After(deadline) {
+				cliStuckSeen++
 				return "stuck"
 			}
 		}
+	}
+}
+
+// guarded runs a call that takes a request's lock on a goroutine of its own and reports whether it
+// came back in time.
+func (cc *cliConn) guarded(fn func()) bool {
+	done := make(chan struct{})
+	go func() { fn(); close(done) }()
+	wait := 4 * time.Second
+	if cliStuckSeen >= 3 {
+		wait = time.Second
+	}
+	select {
+	case <-done:
+		return true
+	case <-time.After(wait):
+		cliStuckSeen++
+		return false
 	}
 }
 
@@ -275,8 +323,11 @@ func (cc *cliConn) frameTok(f rawFrame) tok {
 		if err != nil {
 			st = "hpack-err"
 		}
-		return mk(fmt.Sprintf("H%d:%d:%d:%s:%s", f.stream, f.flags&1, (f.flags>>2)&1, st, strings.Join(append(head, tail...), ",")),
-			fmt.Sprintf(":len=%d", len(f.payload)))
+		extra := fmt.Sprintf(":len=%d", len(f.payload))
+		if err != nil {
+			extra += ":" + strings.ReplaceAll(err.Error(), " ", "_") + ":" + hexOrDash(f.payload[:minInt(len(f.payload), 16)])
+		}
+		return mk(fmt.Sprintf("H%d:%d:%d:%s:%s", f.stream, f.flags&1, (f.flags>>2)&1, st, strings.Join(append(head, tail...), ",")), extra)
 	case 3:
 		if len(f.payload) == 4 {
 			return mk(fmt.Sprintf("R%d:%d", f.stream, be32(f.payload)), "")
@@ -306,6 +357,13 @@ func (cc *cliConn) frameTok(f rawFrame) tok {
 		}
 	}
 	return mk(fmt.Sprintf("F%d:%d:%d:%s", f.stream, f.typ, f.flags, hexOrDash(f.payload)), "")
+}
+
+func minInt(a, b int) int {
+	if a < b {
+		return a
+	}
+	return b
 }
 
 func be32(b []byte) uint32 {
@@ -350,6 +408,10 @@ func (cc *cliConn) finishStep(prefix string) string {
 	out := strings.Join(cmp, ";")
 	if out == "" {
 		out = "-"
+	}
+	if n := cc.nc.failed.Load(); n > cc.failSeen {
+		all += fmt.Sprintf(" wfail=%d", n-cc.failSeen)
+		cc.failSeen = n
 	}
 	if q == "stuck" {
 		cc.state = "stuck"
@@ -467,7 +529,12 @@ func (r *runner) runCli(f []string) string {
 		if q == nil {
 			return "bad-op"
 		}
-		http2.VerifCtxFireTimeout(q.ctx)
+		// the timer goroutine takes the request's lock (cancel -> deletePending): a lock the connection
+		// never gave back would park it, and this harness with it
+		if !cc.guarded(func() { http2.VerifCtxFireTimeout(q.ctx) }) {
+			cc.state = "stuck"
+			return "stuck ## timer blocked on the request lock"
+		}
 		return cc.finishStep("")
 	case "read":
 		q := cc.reqs[f[3]]
@@ -575,7 +642,8 @@ func (r *runner) cliNew(id string, a []string) string {
 	http2.VerifPoolTrack(true)
 	cc.noteServerSettings(first)
 	cc.mc.in.write(first)
-	cc.c = http2.NewConn(cc.mc, http2.ConnOpts{PingInterval: time.Hour, DisablePingChecking: true})
+	cc.nc = &cliNet{memConn: cc.mc}
+	cc.c = http2.NewConn(cc.nc, http2.ConnOpts{PingInterval: time.Hour, DisablePingChecking: true})
 	if err := cc.c.Handshake(); err != nil {
 		cc.state = "hs-err"
 		cc.collect()
@@ -685,7 +753,11 @@ func (cc *cliConn) doRead(q *cliReq) string {
 	}
 	select {
 	case err := <-q.ctx.Err:
-		http2.VerifCtxTakeBack(q.ctx)
+		// RoundTrip takes the request back before it returns; it waits for whoever holds the lock
+		if !cc.guarded(func() { http2.VerifCtxTakeBack(q.ctx) }) {
+			q.read = true
+			return "read hung " + cliErrName(err) + " ## takeBack blocked: the connection still holds the request"
+		}
 		q.read = true
 		s := fmt.Sprintf("read %s retry=%d sid=%d", cliErrName(err), map[bool]int{false: 0, true: 1}[http2.VerifRetryable(err)],
 			http2.VerifCtxStreamID(q.ctx))
